@@ -361,38 +361,31 @@ theorem replaceCore_eq (data old new : Bits) (s e : Nat) (c : Nat) (al : Bool) (
 
 theorem replace_main (data old new : Bits) (start stop : Option Int) (count : Option Int)
     (ba : Option Bool) (optBA : Bool)
-    (hreg : replace_count0_unvalidated data.length old start stop count = false)
     (hc : ∀ c, count = some c → 0 ≤ c) :
     replace data old new start stop count ba optBA =
       specGuard true data.length old start stop fun s e =>
         specReplace data old new s e (specAligned ba optBA) (countNat count) := by
   unfold replace specGuard
-  by_cases h0 : count = some 0
-  · subst h0
-    simp only [replace_count0_unvalidated, beq_self_eq_true, Bool.true_and, Bool.or_eq_false_iff] at hreg
-    obtain ⟨h1, h2⟩ := hreg
+  by_cases hp : old.length = 0
+  · have : old = [] := List.length_eq_zero_iff.1 hp
+    subst this; simp
+  · have hne : old ≠ [] := fun h => hp (by simp [h])
+    have hie : old.isEmpty = false := by cases old <;> simp_all
+    rw [if_neg hp]
+    simp only [hie, Bool.and_false, Bool.false_eq_true, if_false]
+    have hv := validate_slice_spec data.length start stop
     cases hw : specWindow data.length start stop with
-    | none => simp [hw] at h2
+    | none => rw [hw] at hv; rw [hv]
     | some w =>
       obtain ⟨s, e⟩ := w
-      simp [h1, countNat, specReplace, specReplaceSel, spliceFrom]
-  · rw [if_neg h0]
-    by_cases hp : old.length = 0
-    · have : old = [] := List.length_eq_zero_iff.1 hp
-      subst this; simp
-    · have hne : old ≠ [] := fun h => hp (by simp [h])
-      have hie : old.isEmpty = false := by cases old <;> simp_all
-      rw [if_neg hp]
-      simp only [hie, Bool.and_false, Bool.false_eq_true, if_false]
-      have hv := validate_slice_spec data.length start stop
-      cases hw : specWindow data.length start stop with
-      | none => rw [hw] at hv; rw [hv]
-      | some w =>
-        obtain ⟨s, e⟩ := w
-        rw [hw] at hv
-        have hb := validate_slice_bounds _ _ _ s e hv
-        rw [hv]
-        simp only []
+      rw [hw] at hv
+      have hb := validate_slice_bounds _ _ _ s e hv
+      rw [hv]
+      simp only []
+      by_cases h0 : count = some 0
+      · subst h0
+        simp [countNat, specReplace, specReplaceSel, spliceFrom]
+      · rw [if_neg h0]
         rw [defaultBA_eq]
         generalize specAligned ba optBA = al
         congr 1
